@@ -352,6 +352,27 @@ def observer_frame(u):
                 src = ast.unparse(par)
                 ok = isinstance(par, (ast.Lambda, ast.Call, ast.Return, ast.Assign, ast.keyword)) and not isinstance(par, (ast.Compare, ast.BinOp, ast.If))
                 u.ensure(ok, f"rcond_use:{f.qualname}", desc=f"{f.qualname} uses rcond in `{src[:80]}`")
+        # ... also through local names: a name bound to a reported condition estimate (`rcond`, or any name assigned
+        # from an expression that reads `.rcond`) may only be forwarded (constructor / call argument, return value,
+        # plain re-binding), never compared, computed with or branched on: reporting must not steer the algorithm
+        tainted = {"rcond"}
+        for n in ast.walk(f.node):
+            if isinstance(n, ast.Assign) and any(isinstance(c, ast.Attribute) and c.attr == "rcond" and isinstance(c.ctx, ast.Load) for c in ast.walk(n.value)):
+                for t in n.targets:
+                    for c in ([t] if isinstance(t, ast.Name) else (t.elts if isinstance(t, (ast.Tuple, ast.List)) else [])):
+                        if isinstance(c, ast.Name):
+                            tainted.add(c.id)
+        parents = {}
+        for pn in ast.walk(f.node):
+            for c in ast.iter_child_nodes(pn):
+                parents[id(c)] = pn
+        for n in ast.walk(f.node):
+            if isinstance(n, ast.Name) and n.id in tainted and isinstance(n.ctx, ast.Load):
+                par = parents.get(id(n))
+                while isinstance(par, (ast.Tuple, ast.List, ast.Starred)):
+                    par = parents.get(id(par))
+                ok = isinstance(par, (ast.Call, ast.Return, ast.Assign, ast.keyword, ast.Lambda))
+                u.ensure(ok, f"rcond_value_only_forwarded:{f.qualname}", desc=f"{f.qualname} uses the reported condition estimate `{n.id}` in `{ast.unparse(par)[:80] if par is not None else '?'}` (line {n.lineno}): the algorithm must not depend on what is only computed for reporting")
     # (e) callbacks receive the iterates and the verdict, nothing is read back
     cb = [n for n in ast.walk(loop) if isinstance(n, ast.Call) and ast.unparse(n.func) == "self.callbacks"]
     par = [p for p in ast.walk(loop) if any(c in cb for c in ast.iter_child_nodes(p))]
